@@ -72,6 +72,17 @@ claim("C07", "proof",
       "Meta-step: induction over the number of calls. HMAC/HKDF/KMAC/KDF wrappers are thin compositions covered under C04/C05.",
       "CBMC code contracts (DFCC): enforced function contracts parameterised by the entry position", "4/C07")
 
+claim("C04", "proof",
+      "ASCON-PRF/MAC/PRFshort: absorb/squeeze step proofs against the byte automaton, and every entry point enforced "
+      "against its definition for all keys/messages/lengths with the permutation abstract; MAC verification is proved to "
+      "be the exact 16-byte comparison. HMAC/HMACA: the RFC 2104 postcondition is asserted for the real one-shot, init, "
+      "reinit and finalize functions over specification stubs of the hash, for enumerated key lengths on both sides of "
+      "the 32-byte chunk and 64-byte block boundaries.",
+      "HMAC groups assert the contract postcondition in the harness (no DFCC frame check) and enumerate key lengths; KMAC "
+      "is covered through the cXOF contracts of C03 plus the KMAC groups where present. Meta-step: length generalisation "
+      "of the PRF step proofs.",
+      "CBMC code contracts (DFCC) for PRF; harness-asserted postconditions over specification stubs for HMAC", "4/C04")
+
 NA_DEFAULT = {
     "C11": "secret-independence of control flow and addresses is a relational (2-safety) property of the shipped object code; a CBMC contract describes one execution of the C source and has no taint or relational mode (DESIGN section 6)",
     "C17": "compilability of C++ members is a compiler verdict, and CBMC's C++ front end rejects this repository's C++ (DESIGN 2.8, section 6)",
